@@ -306,6 +306,9 @@ pub fn finish(ctx: &Ctx, mut res: CheckResult, wall_s: f64) -> i32 {
         println!("  occurrences this run: {}", fs.len());
         reported.push(json!({"class": class, "known": false, "occurrences": fs.len(), "replay": path.display().to_string()}));
     }
+    if crate::engine::stopped_early() {
+        println!("NOTE: too many findings; the remaining cases of this run were skipped (TRUSIM_MAX_FINDINGS)");
+    }
     for e in res.harness_errors.iter().take(20) {
         eprintln!("HARNESS-ERROR: {}", e);
     }
